@@ -254,7 +254,10 @@ func addRecord(set entities.Set, els []entities.InfoElementWithValue, id uint16,
 	case PathV2:
 		// adopts the caller's slice (documented) until the set has been sent or reset
 		adoptedMu.Lock()
-		adopted = append(adopted, els)
+		if adopted = append(adopted, els); len(adopted) > 512 {
+			// a check that never calls ReleaseAdopted must not keep every slice it ever handed over
+			adopted = append([][]entities.InfoElementWithValue(nil), adopted[256:]...)
+		}
 		adoptedMu.Unlock()
 		return set.AddRecordV2(els, id)
 	case PathExtra:
